@@ -496,7 +496,8 @@ def ops_table():
             ("Type4BTag", lambda **k: make_t4(9, 3, 20, typ="B", **k))]:
         T.append(("activation-" + name, fac, act, (1, 2, 3, 4)))
     T.append(("Type4ATag-wtx", lambda: make_t4(10, 0, 10, wtx=True),
-              [o for o in t4_chain if o[0] in ("update_binary_chained", "read_binary_chained", "ndef_read_chained")],
+              [o if o[0] != "ndef_read_chained" else o[:4] + ("t",) for o in t4_chain
+               if o[0] in ("update_binary_chained", "read_binary_chained", "ndef_read_chained")],
               (1, 2, 3, 4)))
     T.append(("Type4ATag-wtx-fwi11", lambda: make_t4(11, 1, 10, wtx=True),
               [o for o in t4_chain if o[0] in ("read_binary_chained",)], (1, 2)))
@@ -615,12 +616,32 @@ def scripts_for(n, bursts):
     return [dict(p=p, k=k, b=b, m=m) for p in range(1, n + 1) for k in KINDS for b in bursts for m in MODES]
 
 
-def gen_traces(tier, only=None):
+def _gen_entry(args):
+    tier, i = args
+    return gen_traces(tier, entries=[i])
+
+
+def gen_traces_parallel(tier, procs=8):
+    """the (tag class) entries of the table are independent: record them in forked workers, results in table order"""
+    import multiprocessing
+    n = len(ops_table())
+    with multiprocessing.get_context("fork").Pool(procs) as pool:
+        parts = pool.map(_gen_entry, [(tier, i) for i in range(n)], chunksize=1)
+    traces, meta = [], {}
+    for t, m in parts:
+        traces += t
+        meta.update(m)
+    return traces, meta
+
+
+def gen_traces(tier, only=None, entries=None):
     quick = tier == "quick"
     # budget 3 (T1, T2, T3): bursts 1 and 2 must be absorbed (the 2nd / 3rd attempt is answered -> clean result), 3 exhausts it
     dflt_bursts = (1, 2, 3) if quick else (1, 2, 3, 4)
     traces, meta = [], {}
-    for entry in ops_table():
+    for ei, entry in enumerate(ops_table()):
+        if entries is not None and ei not in entries:
+            continue
         cname, factory, ops = entry[:3]
         bursts = entry[3] if len(entry) > 3 else dflt_bursts
         for (oname, setup, op, doc, tiers) in ops:
@@ -693,6 +714,8 @@ def classify(tr, v, m):
     if ret["kind"] in ("raw", "other"):
         return "%s:%s:%s@%s" % (cls, rule, ret["val"], ret["site"]), ev
     kind = sc.get("k", "bad-mac" if "mac" in sc else "tag-gone") if isinstance(sc, dict) else "-"
+    if ret["kind"] == "tagerr" and tr["const"].get("noraise") and "wrong-result-after-giving-up" in v_:
+        return "%s:%s-raises-TagCommandError@%s" % (cls, m["op"].split("+")[-1], ret["site"]), ev
     if ret["kind"] == "tagerr":
         return "%s:%s:errno=%d-after-%s@%s" % (cls, rule, ret["errno"], kind, ret["site"]), ev
     val = ret["val"] if ret["val"] in ("None", "True", "False") else "value"
@@ -728,7 +751,7 @@ def run(tier, seed):
     f_mc = pool.submit(tlc.run, "MC_TagCmd.tla", "MC_TagCmd.cfg", PID + "/mc", 8, 600)
     f_w = pool.submit(tlc.witnesses, "MC_TagCmd.tla", "MC_TagCmd_reach.cfg", PID, WITNESSES, 300, 1)
     f_b = pool.submit(tlc.witnesses, "MC_TagCmd.tla", "MC_TagCmd_buggy.cfg", PID + "/buggy", BUGGY, 300, 1)
-    traces, meta = gen_traces(tier)
+    traces, meta = gen_traces_parallel(tier)
     r = f_mc.result()
     if not r.ok:
         ck.violation("spec:TagCmd:" + ",".join(r.violated or ["deadlock"]),
